@@ -264,6 +264,9 @@ func (v *vocab) one(s ast.Stmt, p path) []path {
 			out = append(out, r)
 		}
 		return out
+	case *ast.RangeStmt:
+		// a loop is ONE action of the enclosing table; its body is a table of its own (tableBody)
+		return []path{v.act(p, "range "+skel.Src(x.X))}
 	case *ast.SelectStmt:
 		// exactly one communication + default: the literal is "the communication is ready"; a send is also an action.
 		// (round 8c: the non-blocking send of `enqueue`; before, only `<-op.ctx.Done()` was read.)
@@ -316,6 +319,36 @@ func table(b *strings.Builder, name, doc, file, recv, fn string, v *vocab) {
 	fd := skel.Func(prog, f, recv, fn)
 	skel.Lines(fd) // strips logging / tracing in place
 	ps := v.stmts(fd.Body.List, []path{{}})
+	fmt.Fprintf(b, "/-- %s -/\ndef %s : Table := [\n", doc, name)
+	for i, p := range ps {
+		if !p.done {
+			p.acts = append(p.acts, ".retVoid")
+		}
+		sep := ","
+		if i == len(ps)-1 {
+			sep = ""
+		}
+		fmt.Fprintf(b, "  { lits := [%s], acts := [%s] }%s\n", strings.Join(p.lits, ", "), strings.Join(p.acts, ", "), sep)
+	}
+	b.WriteString("]\n\n")
+}
+
+// tableBody: the paths through the body of the first `for … range` of the function (one iteration; a path that does not return goes on
+// with the next element: `.retVoid`).
+func tableBody(b *strings.Builder, name, doc, file, recv, fn string, v *vocab) {
+	f := skel.Parse(prog, file)
+	fd := skel.Func(prog, f, recv, fn)
+	skel.Lines(fd)
+	var body []ast.Stmt
+	for _, s := range fd.Body.List {
+		if rs, ok := s.(*ast.RangeStmt); ok && body == nil {
+			body = rs.Body.List
+		}
+	}
+	ps := []path{{acts: []string{".unknown /- no range loop -/"}, done: true}}
+	if body != nil {
+		ps = v.stmts(body, []path{{}})
+	}
 	fmt.Fprintf(b, "/-- %s -/\ndef %s : Table := [\n", doc, name)
 	for i, p := range ps {
 		if !p.done {
@@ -436,6 +469,15 @@ func main() {
 		aev.acts["pinInfo.Status = "+k] = ".setStatus " + c
 	}
 	table(&b, "addError", "addError (stateless.go)", st, "", "addError", aev)
+	rav := func() *vocab {
+		return mk(map[string]string{"err == nil": ".errNil"}, map[string]string{
+			"statuses, err := spt.statusAll(ctx, api.TrackerStatusUndefined)": ".listAll", "return nil, err": ".retErr",
+			"resp := make([]*api.PinInfo, 0)": "", "range statuses": ".forEach", "return resp, nil": ".retNil",
+			"r, err := spt.recoverWithPinInfo(ctx, st)": ".recEntry", "return resp, err": ".retErr", "resp = append(resp, r)": ".appendResp",
+		})
+	}
+	table(&b, "recoverAll", "Tracker.RecoverAll (the loop is one action)", st, "*Tracker", "RecoverAll", rav())
+	tableBody(&b, "recoverAllBody", "Tracker.RecoverAll: one iteration of its loop", st, "*Tracker", "RecoverAll", rav())
 	consts(&b, "phaseConsts", op, "Phase")
 	consts(&b, "typeConsts", op, "OperationType")
 	b.WriteString("end CV.C05.Gen.Sem\n")
